@@ -581,4 +581,28 @@ theorem stmtsNodupB_sound {H : Hier} (h : stmtsNodupB H = true) : StmtsNodup H :
   rw [← h]
   exact nodup_dedup _
 
+theorem pairwiseB_sound {α : Type} {r : α → α → Bool} : ∀ {l : List α}, pairwiseB r l = true → l.Pairwise (fun a b => r a b = true) := by
+  intro l
+  induction l with
+  | nil => intro _; exact List.Pairwise.nil
+  | cons a l ih =>
+    intro h
+    simp only [pairwiseB, Bool.and_eq_true, List.all_eq_true] at h
+    exact List.pairwise_cons.mpr ⟨h.1, ih h.2⟩
+
+/-- `netsok 1` in the driver's reply -/
+theorem netsOkB_sound {H : Hier} (h : netsOkB H = true) : NetsOk H := by
+  simp only [netsOkB, Bool.and_eq_true, List.all_eq_true, List.any_eq_true, beq_iff_eq, decide_eq_true_eq] at h
+  obtain ⟨⟨h1, h2⟩, h3⟩ := h
+  refine ⟨?_, ?_, ?_⟩
+  · intro n hn m
+    rw [← mem_netOf, ← h1 n hn, mem_sortDedup]
+  · apply (pairwiseB_sound h2).imp
+    intro a b hab hr
+    simp only [Bool.not_eq_true', decide_eq_false_iff_not] at hab
+    exact hab ((mem_netOf _ _ _).mpr hr)
+  · intro e he
+    obtain ⟨n, hn, hm⟩ := h3 e he
+    exact ⟨n, hn, (mem_netOf _ _ _).mp hm⟩
+
 end PV.SConn
